@@ -33,6 +33,14 @@ CLAIMS = {
         text="Lean theorems: each draft's REGENERATED keyword table is exactly its vocabulary with the prescribed functions (table_exact), type tables and id keys likewise (types_exact, id_key), other drafts' and later specifications' keywords are unknown to each draft (other_draft_keywords_unknown, other_id_spelling_unknown); inserting an unknown key anywhere among a schema object's keys leaves errors (up to the recorded enclosing schema), stop reason and resolver state unchanged for every validator class (unknown_inert); keys next to $ref are ignored in the four drafts (ref_siblings_inert_drafts; for arbitrary user classes a counterexample shows the claim needs the $ref function not to read siblings). Tie: keyword/type tables regenerated from the source on every run; VAL channel on schemas with foreign keywords; metamorphic monitor inserts 1-3 foreign keywords at random subschema positions and compares erased error multisets on the implementation.",
         note=TB + "Insertion at nested positions follows from unknown_inert by congruence of the evaluator in its recursive call; that lifting is checked by the monitor, not stated as a separate theorem. Draft 3 'required' inside property subschemas is consulted by the parent and excluded, as the property says.",
         ref="6 C10", tech="Lean 4 proof (kernel-evaluated regenerated tables; simulation relation over the evaluator) + metamorphic monitor"),
+    "C12": dict(
+        text="Lean theorems over the model of FormatChecker.check / the format keyword, for ARBITRARY format functions (any function of the instance that returns a value of some truthiness or raises an exception with some MRO): format_off (no checker: no effect, every name and instance), format_follows_conforms, unknown_name_passes, result_truthiness, listed_exception_is_cause (incl. subclasses of listed classes; the cause reaches the ValidationError), unlisted_exception_propagates, format_pure; with C13's builtin_ignores_nonstrings for the built-in functions. Tie: VAL channel through real {format: name} schemas with no checker / FormatChecker() / draft checkers / subsets / custom functions from a menu (truthy, falsy, listed, sub-listed, unlisted exceptions); the regenerated registries; monitors evaluate each clause on the implementation.",
+        note=TB + "Custom functions are drawn from a fixed menu known to both sides; format functions not modelled in Lean (regex, time, idn-hostname) are oracles answered with the stdlib.",
+        ref="6 C12", tech="Lean 4 proof (case analysis of check/conforms for arbitrary format functions) + differential correspondence + monitors"),
+    "C13": dict(
+        text="Lean models of CPython 3.12's IPv4Address/IPv6Address parsers and of the repaired is_date, with theorems against independent generative grammars: ipv4_iff_grammar, ipv6_iff_grammar (RFC 4291 forms 1-3 with :: and IPv4 tail, no zone/prefix; full), date_iff_grammar_partial (year >= 1; date_counterexample_year0 proves the known finding), email_iff_at, builtin_ignores_nonstrings, builtin_raises_only_listed, check_raises_only_FormatError over the REGENERATED registries, *_total. Tie: FMT channel on near-miss strings for every registered format of the class-level and the four draft checkers (the model was also validated on 100k vectors when written); monitors: three independent Python grammars, conforms returns a bool, check raises only FormatError.",
+        note=TB + "A-stdlib: ipaddress and datetime are external and modelled for CPython 3.12 (the correspondence ties the model to this installation); regex, Draft 3 time and idn-hostname are opaque oracles, so for them 'never raises' rests on exploration of the real functions (partial). Known finding: year 0000 rejected.",
+        ref="6 C13", tech="Lean 4 proof (parser = generative grammar) + differential correspondence + independent grammar oracles"),
     "C14": dict(
         text="Lean theorem resolve_eq_spec: for every document, token list and percent-encoder, resolve_fragment of the encoded pointer equals RFC 6901 evaluation (value or failure), with corollaries positive/negative/empty_fragment/array_token_spec/scalar_token_spec and the round trips unescape_escape, unquote_pctEncode (UTF-8 via Lean core). Tie: PTR channel on every path of generated documents under five encoders, mutated tokens, arbitrary fragment strings; independent Python oracle walks the document.",
         note=TB + "The replacing UTF-8 decoder (errors='replace') is modelled and tied by correspondence only; theorems use the strict branch.",
@@ -45,6 +53,14 @@ CLAIMS = {
         text="Lean theorems about ErrorTree for every error list in every arrival order: walk_finds, node_errors, walk_isSome_iff, contains_spec, keys_spec, total_errors_spec (= distinct (path, keyword) pairs), node_inst, getitem_errorfree, getitem_child, order_independent. Tie: TREE channel on error lists of real validations in all permutations (<= 4 errors) with lookups; the statements are also evaluated on the implementation's tree.",
         note=TB + "The model's build is total by construction; that the constructor never raises is decided by the correspondence/monitor (repaired defect). Known finding: a propertyNames error filed last at a node makes indexing error-free elements raise.",
         ref="6 C17", tech="Lean 4 proof (representation invariant of the tree under insertion) + differential correspondence"),
+    "C18": dict(
+        text="Lean theorems over a system of validator objects (each owning its resolver state, handlers and format functions) and schedules of next() steps: step_frame / globals_readonly (a step of validator a leaves every other validator and the globals unchanged), interleaving_independent (a's events under any schedule = under the schedule restricted to a), alone_is_exhaustive_prefix (via the budget-prefix law), any_interleaving_gives_alone_errors. Tie: SYS channel on families of 2-3 validators built to collide on base URI, $ref strings, remote URLs, regexes and format names, ALL interleavings up to 8 steps; monitors: each iterator vs the same validator alone on fresh objects, and alone in a pristine interpreter; threaded runs as supporting exploration.",
+        note=TB + "A-threads: preemptive thread schedules cannot be exhibited by the model; the threaded runs (sys.setswitchinterval(1e-6)) are exploration, not proof (partial). Re-entering a validator while one of its own iterators is suspended is excluded by the property.",
+        ref="6 C18", tech="Lean 4 proof (non-interference by construction of a product state + induction on the schedule) + differential correspondence + interleaving monitor"),
+    "C19": dict(
+        text="Lean theorems over the model of cli.run / parse_args: exit_zero_iff, status_zero_or_one, status_is_or, status_order_independent, every_instance_processed / output_up_to_escape, per_instance_follows_library, plain_stdout_empty, pretty_one_header_per_valid, one_diagnostic_per_bad_file / diagnostics_are_the_bad_files, schema_failure_stops / schema_failure_touches_no_instance, error_format_plain_only. Tie: CLI channel on schema-file states x instance lists (all orders up to length 3) x plain/pretty x --error-format x --validator x --base-uri, in-process through cli.run and (sampled) as python -m jsonschema subprocesses; the monitor evaluates the statement on the real CLI's exit status, stdout and stderr.",
+        note=TB + "A-files: a file is missing, unparsable (not JSON or, after the repair, not UTF-8) or a JSON value; other OSErrors (a directory, EACCES) are outside the quantifier's file states. Text rendering (tracebacks, pretty frames) is done by the harness from the model's events.",
+        ref="6 C19", tech="Lean 4 proof (fold over the instance list) + differential correspondence + monitor on real exit status and streams"),
     "C20": dict(
         text="Lean theorems over the model of validator_for / validates / jsonschema.validate: a registered id (after URI normalisation) selects its class without warning (select_registered), no $schema or a boolean schema selects the caller's default (select_default), an unknown URI selects the latest draft with a warning (select_unknown), validate() without a class equals validate() with the selected class (validate_as_selected), an explicit class wins independently of the registries (explicit_class_wins), registering a new id makes it selectable and disturbs no registration (register_new_id_preserves); the REGENERATED registries map the four draft ids to the four drafts and latest = draft 7 (initial_registry, metaschema_ids). Tie: MOD channel on $schema spellings x bodies/instances on which drafts disagree; monitor compares validate() with the selected class on the implementation.",
         note=TB + "A-url: urlsplit(u).geturl() is an oracle (dropping an empty fragment/query is a tested URI fact). Sequences of additional registrations are proved on the model (register_new_id_preserves) but not yet exercised against the implementation; the CLI's selection is covered by C19 when claimed.",
